@@ -97,10 +97,15 @@ def nonascii_type_sources():
     templates = ["{}", "Vec<{}>", "Option<{}>", "HashMap<String, {}>", "({}, u32)", "(u32, {})", "Result<{}, String>", "Result<Vec<{}>, String>",
                  "Result<(u32, {}), String>", "Result<HashMap<String, {}>, String>", "Result<Option<{}>, String>", "Result<u32, Vec<{}>>",
                  "Vec<Result<{}, String>>", "Option<Vec<Option<{}>>>", "HashMap<String, ({}, Option<{}>)>", "Result<{}>", "Result<(u8, {})>",
-                 "BTreeMap<u8, Vec<{}>>", "HashSet<Option<{}>>", "&'static {}"]
+                 "BTreeMap<u8, Vec<{}>>", "HashSet<Option<{}>>", "&'static {}",
+                 # the name itself generic, and behind a path whose segments are not ASCII either: the head of a type
+                 # string ("before the first <, ( or [", "after the last ::") is found by offsets into such names
+                 "{}G<u32>", "{}G<{}>", "Vec<{}G<String>>", "Option<{}G<Vec<{}>>>", "{}G<(u8, {})>", "({}G<u8>, {})", "HashMap<String, {}G<bool>>",
+                 "mod\u00e9::{}", "crate::mod\u00e9::{}", "crate::mod\u00e9::{}G<u8>", "Option<mod\u00e9::{}>", "(mod\u00e9::{}, u8)", "Vec<\u65e5::{}G<\u65e5::{}>>",
+                 "Result<mod\u00e9::{}G<u8>, String>", "[{}; 3]", "[{}G<u8>; 2]", "Vec<[mod\u00e9::{}; 2]>"]
     out = []
     for ni, nm in enumerate(names):
-        body = ["#[derive(Serialize, Deserialize)]\npub struct %s {\n    pub wert: u8,\n}\n" % nm]
+        body = ["#[derive(Serialize, Deserialize)]\npub struct %s {\n    pub wert: u8,\n}\n#[derive(Serialize, Deserialize)]\npub struct %sG<T> {\n    pub inner: T,\n}\n" % (nm, nm)]
         for ti, t in enumerate(templates):
             ty = t.replace("{}", nm)
             k = ni * 100 + ti
